@@ -76,6 +76,14 @@ def main():
         if confirmed:
             dst = os.path.join(HERE, "seeded", a.name)
             os.makedirs(dst, exist_ok=True)
+            old_meta = os.path.join(dst, "meta.json")
+            if a.skip_tests and os.path.exists(old_meta):
+                # re-evaluation after a check was strengthened: keep the recorded result of the earlier test-suite run
+                prev = json.load(open(old_meta)).get("confirmed_by", {}).get("ran", {})
+                for k in ("tests_with_patch", "tests_tail", "tests_retried"):
+                    if k in prev:
+                        ran[k] = prev[k]
+                ran["first_evaluation_missed_by_check"] = True
             shutil.copy(os.path.join(a.src, "patch.diff"), dst)
             shutil.copy(demo, dst)
             meta["confirmed_by"] = {"ran": ran, "how": "scratch git worktree of /repo HEAD; demo.py run without and with patch.diff; "
